@@ -101,8 +101,9 @@ ExitChecks ==
   (IF {t \in Tids : kst[t] \notin {"exited", "unborn"}} # {}
      THEN <<V("exit_with_live_tasks", "exit", {}, [t \in {x \in Tids : kst[x] \notin {"exited", "unborn"}} |-> kst[t]])>> ELSE <<>>)
 
+StopKinds == {"breakpoint", "signal", "watchpoint", "step"}      \* reports after which the user has a prompt
 Report ==
-  /\ Is("report") /\ Adv /\ prompt' = (Ev.kind \in {"breakpoint", "signal", "watchpoint"})
+  /\ Is("report") /\ Adv /\ prompt' = (Ev.kind \in StopKinds)
   /\ LET t == Ev.tid
          isbp == Ev.kind = "breakpoint"
          believed == SeqToSet(Ev.threads)
@@ -110,7 +111,7 @@ Report ==
          live == LiveByProbe(Ev.tasks)
      IN
      /\ viol' = viol \o
-          (IF Ev.kind \in {"breakpoint", "signal", "watchpoint"} THEN
+          (IF Ev.kind \in StopKinds THEN
              ProbeChecks("report", Ev.tasks) \o
              (IF believed # live THEN <<V("thread_list_mismatch", "report", live, believed)>> ELSE <<>>) \o
              (IF {x \in bst : ~Known(x) \/ kst[x] # "stopped"} # {}
@@ -124,7 +125,7 @@ Report ==
                    (IF kst[t] # "stopped" THEN <<V("reported_thread_not_stopped", "report", "stopped", kst[t])>> ELSE <<>>))
            ELSE <<>>) \o
           (IF Ev.kind = "exit" THEN ExitChecks
-           ELSE IF Ev.kind \in {"breakpoint", "signal", "watchpoint"} THEN <<>>
+           ELSE IF Ev.kind \in StopKinds THEN <<>>
            ELSE <<V("command_failed", "report", "stop or exit", [kind |-> Ev.kind, err |-> Ev.err])>>)
      /\ owed' = IF isbp /\ Known(t) THEN [owed EXCEPT ![t] = FALSE] ELSE owed
      /\ nrep' = IF isbp /\ Known(t) THEN [nrep EXCEPT ![t] = @ + 1] ELSE nrep
